@@ -114,39 +114,50 @@ def bytesHex (m : Segs) (seg : Nat) (b n : Nat) : String :=
 /-- rendering shows at most `cap` elements / fields of any one object (both sides of the comparison do) -/
 def cap : Nat := 64
 
-/-- the value tree denoted by the pointer at `(seg, w)`, as a canonical string; `fuel` bounds depth -/
-def renderPtr : Nat → Segs → Nat → Nat → String
-  | 0, m, seg, w => (match decode1 m seg w with | some .null => "N" | _ => "E")   -- depth budget exhausted
-  | fuel + 1, m, seg, w =>
+/-- render the children `f 0 … f (n-1)` left to right, threading the node budget -/
+def renderSeq (n : Nat) (f : Nat → Nat → String × Nat) (b : Nat) : String × Nat :=
+  (List.range n).foldl (fun (acc : String × Nat) i => let r := f i acc.2; (acc.1 ++ r.1, r.2)) ("", b)
+
+/-- the value tree denoted by the pointer at `(seg, w)`, as a canonical string; `fuel` bounds depth, and at most
+    `b` pointers are rendered (depth first, left to right): the rest print as `~` (hostile messages can describe
+    trees of astronomical size in a few words) -/
+def renderPtrB : Nat → Segs → Nat → Nat → Nat → String × Nat
+  | _, _, _, _, 0 => ("~", 0)
+  | 0, m, seg, w, b + 1 => ((match decode1 m seg w with | some .null => "N" | _ => "E"), b)   -- depth budget exhausted
+  | fuel + 1, m, seg, w, b + 1 =>
     match decode1 m seg w with
-    | none => "E"
-    | some .null => "N"
-    | some (.cap i) => "C" ++ toString i
+    | none => ("E", b)
+    | some .null => ("N", b)
+    | some (.cap i) => ("C" ++ toString i, b)
     | some (.struct sg s dw pc) =>
-      "S{" ++ bytesHex m sg (8 * s) (8 * min dw cap) ++ "|" ++
-        String.join ((List.range (min pc cap)).map (fun i => renderPtr fuel m sg (s + dw + i))) ++ "}"
+      let r := renderSeq (min pc cap) (fun i b => renderPtrB fuel m sg (s + dw + i) b) b
+      ("S{" ++ bytesHex m sg (8 * s) (8 * min dw cap) ++ "|" ++ r.1 ++ "}", r.2)
     | some (.list sg s ek n dw pc) =>
-      "L" ++ toString ek ++ "," ++ toString n ++ "[" ++
-      (if ek = 7 then
-        String.join ((List.range (min n cap)).map (fun i =>
-          let e := s + i * (dw + pc)
-          "S{" ++ bytesHex m sg (8 * e) (8 * min dw cap) ++ "|" ++
+      let body : String × Nat :=
+        if ek = 7 then
+          renderSeq (min n cap) (fun i b =>
+            let e := s + i * (dw + pc)
             -- a struct-list element spends one more level of the reader's depth budget
-            String.join ((List.range (min pc cap)).map (fun j => renderPtr (fuel - 1) m sg (e + dw + j))) ++ "}"))
-      else if ek = 6 then String.join ((List.range (min n cap)).map (fun i => renderPtr fuel m sg (s + i)))
-      else if ek = 1 then String.join ((List.range (min n cap)).map (fun i =>
-          if (byteAt m sg (8 * s + i / 8)) / 2 ^ (i % 8) % 2 = 1 then "1" else "0"))
-      else bytesHex m sg (8 * s) (min n cap * elemBytes ek)) ++ "]" ++
+            let r := renderSeq (min pc cap) (fun j b => renderPtrB (fuel - 1) m sg (e + dw + j) b) b
+            ("S{" ++ bytesHex m sg (8 * e) (8 * min dw cap) ++ "|" ++ r.1 ++ "}", r.2)) b
+        else if ek = 6 then renderSeq (min n cap) (fun i b => renderPtrB fuel m sg (s + i) b) b
+        else if ek = 1 then (String.join ((List.range (min n cap)).map (fun i =>
+            if (byteAt m sg (8 * s + i / 8)) / 2 ^ (i % 8) % 2 = 1 then "1" else "0")), b)
+        else (bytesHex m sg (8 * s) (min n cap * elemBytes ek), b)
       -- list upgrade rules, on the first element: a struct list read as a list of pointers / of 64-bit
       -- values shows each element's first pointer / first data word (0 if it has none); a primitive list
       -- read as a struct list shows structs whose sole field is the element
-      (if n = 0 then "" else
-       if ek = 7 then
-         "^" ++ (if pc = 0 then "E" else renderPtr fuel m sg (s + dw)) ++ "," ++
-           (if dw = 0 then "0" else bytesHex m sg (8 * s) 8)
-       else if 2 ≤ ek ∧ ek ≤ 5 then
-         "^S{" ++ bytesHex m sg (8 * s) (elemBytes ek) ++ "|}" ++ (if ek = 5 then bytesHex m sg (8 * s) 8 else "0")
-       else "")
+      let up : String × Nat :=
+        if n = 0 then ("", body.2) else
+        if ek = 7 then
+          let r := if pc = 0 then ("E", body.2) else renderPtrB fuel m sg (s + dw) body.2
+          ("^" ++ r.1 ++ "," ++ (if dw = 0 then "0" else bytesHex m sg (8 * s) 8), r.2)
+        else if 2 ≤ ek ∧ ek ≤ 5 then
+          ("^S{" ++ bytesHex m sg (8 * s) (elemBytes ek) ++ "|}" ++ (if ek = 5 then bytesHex m sg (8 * s) 8 else "0"), body.2)
+        else ("", body.2)
+      ("L" ++ toString ek ++ "," ++ toString n ++ "[" ++ body.1 ++ "]" ++ up.1, up.2)
+
+def renderPtr (fuel : Nat) (m : Segs) (seg w : Nat) : String := (renderPtrB fuel m seg w 3000).1
 
 /-- the byte regions `(segment, lo, hi)` of all objects reachable from the pointer at `(seg, w)`:
     struct bodies, list bodies with their tag word, far-pointer landing pads; `none` if a pointer does not decode -/
